@@ -495,7 +495,9 @@ func (d *Datastore) TransactionCancel(ctx context.Context, transactionId string)
 func loadIntendedStoreHighestPrio(ctx context.Context, tscc tree.TreeCacheClient, r *tree.RootEntry, pathKeySet *tree.PathSet, skipIntents []string) error {
 
 	// Get all entries of the already existing intent
-	cacheEntries := tscc.ReadCurrentUpdatesHighestPriorities(ctx, pathKeySet.GetPaths(), 2)
+	// The entries of the intents that are part of the transaction (skipIntents) are skipped below,
+	// so to still get the highest remaining alternative, one priority more then skipped intents is required.
+	cacheEntries := tscc.ReadCurrentUpdatesHighestPriorities(ctx, pathKeySet.GetPaths(), uint64(len(skipIntents)+1))
 
 	flags := tree.NewUpdateInsertFlags()
 
